@@ -35,6 +35,8 @@ ALPHABET = (
     + [("convert", "temperature", "degC", 0.0), ("convert", "length", "m", 0.0), ("convert", "length", "kg", 0.0), ("convert", "length", "kg", 2.0)]
     # an id is any string - the empty one too (a system the user has not named yet)
     + [("add", "", "m2"), ("remove", ""), ("setcur", "")]
+    # two symbols that differ in nothing but the case of a letter are two units (millimetre, megametre)
+    + [("setdefault", "a", "length", "Mm"), ("convert", "length", "mm", 5.0)]
     + [("remove", i) for i in ("a", "b", "z")]
     + [("setcur", i) for i in ("a", "b", None)]
     + [("template", t) for t in ("t1", "t2", "t3")]
@@ -134,11 +136,12 @@ class Run:
                 exp = M.add(act[1], None if mp is None else dict(mp))
                 s = m.AddUnitSystem(act[1], act[1].upper(), mp, read_only=True) if act[3:] == ("readonly",) else m.AddUnitSystem(act[1], act[1].upper(), mp)
                 self.objects[act[1]] = s
-                if s is not m.GetUnitSystemById(act[1]) or s.GetId() != act[1]:
+                if s is not m.GetUnitSystemById((act[1] + "x")[:-1]) or s.GetId() != act[1]:
                     problems.append(("AddUnitSystem-returned-another-object", {}))
             elif k == "remove":
                 exp = M.remove(act[1])
-                m.RemoveUnitSystem(act[1])
+                # (the id as an equal string that is another object: one that was formatted, joined or read from a file)
+                m.RemoveUnitSystem("".join(list(act[1])) if len(act[1]) > 1 else (act[1] + "x")[:-1])
             elif k == "setcur":
                 exp = M.set_current(act[1])
                 if act[2:] == ("property",):
@@ -334,14 +337,14 @@ def random_history(r, n):
         elif k < 0.60:
             acts.append(("template", r.choice(["t1", "t2", "t3"])))
         elif k < 0.78:
-            c, u = r.choice([("length", "m"), ("length", "cm"), ("length", "km"), ("time", "s"), ("time", "min"), ("mass", "g"), ("depth", "ft")])
+            c, u = r.choice([("length", "mm"), ("length", "Mm"), ("length", "m"), ("length", "cm"), ("length", "km"), ("time", "s"), ("time", "min"), ("mass", "g"), ("depth", "ft")])
             acts.append(("setdefault", r.choice(ids), c, u))
         elif k < 0.86:
             acts.append(("removecat", r.choice(ids), r.choice(["length", "time", "mass"])))
         elif r.random() < 0.25:
             acts.append(r.choice([("ghost-setdefault", r.choice(ids), "length", "km"), ("ghost-removecat", r.choice(ids), "time"), ("pushdb",), ("popdb",), ("readonly", r.choice(ids), True)]))
         else:
-            acts.append(r.choice([("convert", "length", "m", 5.0), ("convert", "length", "cm", 7.0), ("convert", "time", "s", 3.0), ("convert", "mass", "kg", 2.0), ("convert", "time", "min", 0.5)]))
+            acts.append(r.choice([("convert", "length", "mm", 2.0), ("convert", "length", "Mm", 2.0), ("convert", "length", "m", 5.0), ("convert", "length", "cm", 7.0), ("convert", "time", "s", 3.0), ("convert", "mass", "kg", 2.0), ("convert", "time", "min", 0.5)]))
     return acts
 
 
